@@ -1,4 +1,8 @@
 #![allow(dead_code, unused_variables, unused_imports, clippy::all)]
+mod bcverify;
+mod c07;
+mod corpus;
+mod progen;
 mod infra;
 mod qcompile;
 mod render;
@@ -21,6 +25,7 @@ fn run_check(id: &str, tier: Tier) -> Result<infra::Report, String> {
         "C05" => sim::checks::c05(tier),
         "C15" => sim::checks::c15(tier),
         "C14" => sim::checks::c14(tier),
+        "C07" => c07::run(tier),
         // REGISTRY (run): "CNN" => cNN::run(tier),
         _ => Err(format!("no check registered for {}", id)),
     }
@@ -37,6 +42,7 @@ fn run_replay(id: &str, path: &std::path::Path) -> i32 {
             sim::driver::replay(replay, mon, oracle, true)
         }
         _ => match id {
+            "C07" => c07::replay(replay),
             // REGISTRY (replay): "CNN" => cNN::replay(replay),
             _ => Err(format!("no replay handler for {}", id)),
         },
@@ -72,6 +78,11 @@ fn main() {
             probe(&src, w, q);
         }
         "probe-scenarios" => probe_scenarios(),
+        "gen-counts" => {
+            let n: usize = args.get(2).and_then(|s| s.parse().ok()).unwrap_or(3);
+            println!("{:?}", progen::counts(n));
+            for p in progen::programs(2, 100000).iter().step_by(37).take(40) { println!("{}", p); }
+        }
         "session" => {
             let mut s = sim::session::Session::new(2, Default::default()).unwrap();
             for line in &args[2..] {
